@@ -21,7 +21,7 @@ import impl
 from common import driver_batch
 
 ID = 'C07'
-EXTRA_MODULES = ['Mistletoe.Proofs.DefOrder', 'Mistletoe.Proofs.RefResolve', 'propsdriver']
+EXTRA_MODULES = ['Mistletoe.Proofs.DefOrder', 'Mistletoe.Proofs.RefResolve', 'Mistletoe.Proofs.DefLine', 'propsdriver']
 RULE = ('generated documents: blocks (paragraphs, ATX and setext headings, table cells, quotes, list items nested to depth 3) '
         'carrying uniquely tagged reference uses in full / collapsed / shortcut form for links and images; definitions '
         'placed before or after their uses at top level or inside quotes and list items, with duplicate and near-'
@@ -35,9 +35,10 @@ PARTIAL = ['proved over the whole-document model: one table for all inline conte
            'C07_first_in_document_order, C07_position_independent), first definition wins, unresolved labels resolve to '
            'nothing; that a reference in the TEXT reaches the lookup is proved for shortcut, collapsed and full references (links and '
            'images) written in otherwise plain text: the inline parser calls the lookup with normalize_label(label), yields ONE token '
-           'carrying the looked-up destination and title, and no token at all when the lookup fails (Props/C07_Resolve.lean; the '
-           'document-level corollary takes the block phase\'s reading of the definition line as an evaluated assumption and is '
-           're-checked on the real code each run: c07.resolve); references next to other inline constructs, inside emphasis or '
+           'carrying the looked-up destination and title, and no token at all when the lookup fails (Props/C07_Resolve.lean); the '
+           'block phase reads a run of definition lines (with or without titles) as exactly those definitions in order, so the '
+           'document-level statements - the link goes to the FIRST matching definition of the run, or the text stays literal - hold with no '
+           'assumption left (Props/C07_DefLine.lean; re-checked on the real code each run: c07.resolve, c07.defs); references next to other inline constructs, inside emphasis or '
            'nested brackets are tied by the inline/doc units and explored over all placements']
 
 FAMILIES = [['foo', 'Foo', 'FOO', 'fOo'], ['bar baz', 'Bar  Baz', 'BAR\tBAZ', 'bar baz'], ['ß', 'ẞ', 'SS', 'ss', 'Ss'],
@@ -285,6 +286,36 @@ def resolve_unit(ctx):
         ctx.compare('c07.resolve', {'text': r['text']}, r['html'], real, kind='resolved' if '<a href' in r['html'] else 'literal')
     ctx.notes.append('of %d generated definition + reference documents %d satisfy the hypotheses of C07_shortcut_document_text_partial '
                      '(%d resolve to the definition, the others stay literal)' % (len(reqs), n_ok, n_link))
+
+    # runs of definition lines with and without titles (C07_defs_document: no assumption about the block phase)
+    reqs = []
+    for _ in range(ctx.budget(1200, 12000)):
+        fam = rng.choice(RES_LABELS)
+        defs = []
+        for _k in range(rng.randint(1, 3)):
+            d = {'lbl': rng.choice(fam) if rng.random() < 0.7 else rng.choice(rng.choice(RES_LABELS)), 'dest': rng.choice(['/url', 'a/b.c', 'x', '/U/1.html'])}
+            if rng.random() < 0.4:
+                d['title'] = rng.choice(['T', 'two words', 'it\'s <b>', 'x > y', '(t)'])
+            defs.append(d)
+        l = rng.choice(fam) if rng.random() < 0.75 else rng.choice(rng.choice(RES_LABELS))
+        pre = ' '.join(rng.choice(RES_WORDS[:6]) for _ in range(rng.randint(1, 3))) + ' '
+        post = rng.choice(['', '.', ' ' + rng.choice(RES_WORDS[:6])])
+        reqs.append({'op': 'c07.defs', 'defs': defs, 'pre': pre, 'lbl': l, 'post': post})
+    res = driver_batch(reqs, binary=common.PROPS_DRIVER)
+    n_ok = n_link = n_dup = 0
+    for q, r in zip(reqs, res):
+        if not (isinstance(r, dict) and r.get('ok')):
+            continue
+        n_ok += 1
+        n_link += '<a href' in r['html']
+        n_dup += len(q['defs']) >= 2
+        try:
+            real = impl.parse_render('HtmlRenderer', {}, r['text'])[1]
+        except Exception as e:
+            real = {'raises': type(e).__name__}
+        ctx.compare('c07.defs', {'text': r['text']}, r['html'], real, kind='n%d' % len(q['defs']))
+    ctx.notes.append('of %d generated documents with runs of definition lines %d satisfy the hypotheses of C07_defs_document (%d resolve, %d with '
+                     'two or more definitions)' % (len(reqs), n_ok, n_link, n_dup))
 
 
 def defs_of_buffer(buf):
